@@ -211,6 +211,26 @@ func Fit(neg bool, c *big.Int, q int) (Val, bool) {
 		return Val{Class: Fin, Neg: neg, C: new(big.Int), Q: q}, true
 	}
 	c = new(big.Int).Set(c)
+	if k := NumDigits(c) - 35; k > 0 {
+		// at least k digits must go: strip them in one division
+		var r big.Int
+		c.QuoRem(c, Pow10(k), &r)
+		if r.Sign() != 0 {
+			return Val{}, false
+		}
+		q += k
+	}
+	if k := MinQ - q; k > 0 {
+		if k > 40 {
+			return Val{}, false
+		}
+		var r big.Int
+		c.QuoRem(c, Pow10(k), &r)
+		if r.Sign() != 0 {
+			return Val{}, false
+		}
+		q += k
+	}
 	for q < MinQ {
 		var r big.Int
 		c.QuoRem(c, bigTen, &r)
